@@ -181,16 +181,28 @@ pub struct Profile {
     pub point_axis: bool,
     /// glyph names that stress file-name mapping: case variants, reserved characters, device names
     pub weird_names: bool,
+    /// only Latin / common-script names from the pool (one script, left to right)
+    pub latin_only: bool,
+    /// designspace <rules>
+    pub rules: bool,
+    /// naming facet: missing legacy names, non-RIBBI styles, colliding instance names, axis labels
+    pub naming: bool,
 }
 
 impl Profile {
+    /// every facet off
+    pub fn base() -> Profile {
+        Profile { min_axes: 0, max_axes: 0, max_glyphs: 1, min_glyphs: 1, outlines: false, cubic: false, components: 0, transforms: false, mixed: false, sparse: 0,
+            order_variety: false, non_export: false, metrics_class_a: false, vertical: false, half_coords: false, maps: false, awkward_axes: false, multi_codepoints: false, ps_names: false, anchors: false, kerning: false, instances: false, flat_maps: false, point_axis: false, weird_names: false,
+            latin_only: false, rules: false, naming: false }
+    }
     pub fn outlines() -> Profile {
         Profile { min_axes: 1, max_axes: 3, max_glyphs: 8, min_glyphs: 2, outlines: true, cubic: true, components: 4, transforms: true, mixed: true, sparse: 3,
-            order_variety: false, non_export: true, metrics_class_a: true, vertical: true, half_coords: true, maps: true, awkward_axes: false, multi_codepoints: false, ps_names: false, anchors: false, kerning: false, instances: false, flat_maps: false, point_axis: false, weird_names: false }
+            order_variety: false, non_export: true, metrics_class_a: true, vertical: true, half_coords: true, maps: true, awkward_axes: false, multi_codepoints: false, ps_names: false, anchors: false, kerning: false, instances: false, flat_maps: false, point_axis: false, weird_names: false, ..Profile::base() }
     }
     pub fn glyphset() -> Profile {
         Profile { min_axes: 0, max_axes: 1, max_glyphs: 14, min_glyphs: 1, outlines: false, cubic: false, components: 4, transforms: false, mixed: true, sparse: 0,
-            order_variety: true, non_export: true, metrics_class_a: false, vertical: false, half_coords: false, maps: false, awkward_axes: false, multi_codepoints: true, ps_names: true, anchors: false, kerning: false, instances: false, flat_maps: false, point_axis: false, weird_names: false }
+            order_variety: true, non_export: true, metrics_class_a: false, vertical: false, half_coords: false, maps: false, awkward_axes: false, multi_codepoints: true, ps_names: true, anchors: false, kerning: false, instances: false, flat_maps: false, point_axis: false, weird_names: false, ..Profile::base() }
     }
 }
 
@@ -344,7 +356,7 @@ impl SynthFont {
         }
 
         // ---- glyphs
-        let mut pool: Vec<usize> = (0..NAME_POOL.len()).collect();
+        let mut pool: Vec<usize> = (0..NAME_POOL.len()).filter(|i| !p.latin_only || !matches!(NAME_POOL[*i].0, "Omega" | "alpha" | "uni0416" | "u1F600" | "u10330")).collect();
         let mut weird_pool: Vec<&str> = vec!["a\"b", "a%22b", "con", "CON", "aux", "a*b", "a?b", "a:b", "A_", "a_", "nul.alt", "Aa", "aA", "AA", "aa", "x^1", "x%5E1", "e\u{301}", "\u{e9}"];
         let mut glyphs: Vec<Glyph> = vec![];
         let mut gh = g.fork(8);
@@ -511,7 +523,220 @@ impl SynthFont {
             for s in sources.iter_mut() { s.norm.insert(at, 0.0); }
             for i in instances.iter_mut() { i.norm.insert(at, 0.0); }
         }
-        SynthFont { upem, axes, sources, glyphs, glyph_order, skip_export, ps_names, categories_explicit: false, features: None, instances, rules: vec![], rules_processing_last: false, lib_filters: vec![] }
+        let mut f = SynthFont { upem, axes, sources, glyphs, glyph_order, skip_export, ps_names, categories_explicit: false, features: None, instances, rules: vec![], rules_processing_last: false, lib_filters: vec![] };
+        // later facets: each in its own block of words appended after the older ones, so that genomes
+        // of stored replays keep their meaning
+        let mut kg = g.fork(220);
+        if p.kerning { gen_kerning(&mut f, &mut kg, half); }
+        let mut ag = g.fork(260);
+        if p.anchors { gen_anchors(&mut f, &mut ag); }
+        let mut rg = g.fork(120);
+        if p.rules { gen_rules(&mut f, &mut rg); }
+        let mut ng = g.fork(80);
+        if p.naming { gen_naming(&mut f, &mut ng); }
+        f
+    }
+}
+
+pub fn is_mark_name(n: &str) -> bool { n.ends_with("comb") }
+
+#[derive(Clone, Copy, PartialEq)]
+enum KRef { Glyph(usize), Group(usize) }
+
+fn gen_kerning(f: &mut SynthFont, g: &mut Gen, half: bool) {
+    let pool: Vec<String> = f.glyphs.iter().filter(|x| x.name != ".notdef" && !is_mark_name(&x.name)).map(|x| x.name.clone()).collect();
+    if pool.len() < 2 || !g.chance(9, 10) { return; }
+    let n = pool.len();
+    let (ng1, ng2) = (g.below(4), g.below(4));
+    let mut base1: Vec<Option<usize>> = (0..n).map(|_| { let c = g.chance(1, 2); let k = g.below(ng1.max(1)); if ng1 > 0 && c { Some(k) } else { None } }).collect();
+    let mut base2: Vec<Option<usize>> = (0..n).map(|_| { let c = g.chance(1, 2); let k = g.below(ng2.max(1)); if ng2 > 0 && c { Some(k) } else { None } }).collect();
+    base1.truncate(n); base2.truncate(n);
+    let n_pairs = 1 + g.below(9);
+    let mut base_pairs: Vec<(KRef, KRef, f64)> = vec![];
+    for _ in 0..n_pairs {
+        let a = if ng1 > 0 && g.chance(1, 2) { KRef::Group(g.below(ng1)) } else { g.word(); KRef::Glyph(g.below(n)) };
+        let b = if ng2 > 0 && g.chance(1, 2) { KRef::Group(g.below(ng2)) } else { g.word(); KRef::Glyph(g.below(n)) };
+        let v = -(10.0 + g.below(90) as f64) * if g.chance(1, 4) { -1.0 } else { 1.0 };
+        if !base_pairs.iter().any(|(x, y, _)| *x == a && *y == b) { base_pairs.push((a, b, v)); }
+    }
+    // exceptions to class pairs: a member glyph on one or both sides, half of them zero in every master
+    let mut zero_everywhere: Vec<(KRef, KRef)> = vec![];
+    for (a, b, v) in base_pairs.clone() {
+        let mut eg = g.fork(5);
+        let (KRef::Group(ga), KRef::Group(gb)) = (a, b) else { continue };
+        if !eg.chance(1, 2) { continue; }
+        let m1: Vec<usize> = (0..n).filter(|i| base1[*i] == Some(ga)).collect();
+        let m2: Vec<usize> = (0..n).filter(|i| base2[*i] == Some(gb)).collect();
+        if m1.is_empty() || m2.is_empty() { continue; }
+        let (x, y) = match eg.below(3) { 0 => (KRef::Group(ga), KRef::Glyph(m2[eg.below(m2.len())])), 1 => (KRef::Glyph(m1[eg.below(m1.len())]), KRef::Group(gb)), _ => (KRef::Glyph(m1[eg.below(m1.len())]), KRef::Glyph(m2[eg.clone().below(m2.len())])) };
+        if base_pairs.iter().any(|(p, q, _)| *p == x && *q == y) { continue; }
+        if eg.chance(1, 2) { zero_everywhere.push((x, y)); }
+        base_pairs.push((x, y, v / 2.0));
+    }
+    let full: Vec<usize> = f.full_sources().map(|(i, _)| i).collect();
+    for si in full {
+        let mut mg = g.fork(28);
+        if !mg.chance(if si == 0 { 7 } else { 5 }, 8) { continue; }
+        let (mut g1, mut g2) = (base1.clone(), base2.clone());
+        // divergent grouping: move / ungroup / newly group one glyph per side
+        for (side, ng) in [(&mut g1, ng1), (&mut g2, ng2)] {
+            if si > 0 && mg.chance(1, 2) { let k = mg.below(n); side[k] = match mg.below(3) { 0 => None, _ => if ng > 0 { Some(mg.below(ng)) } else { None } }; } else { mg.word(); mg.word(); mg.word(); }
+        }
+        let rename = si > 0 && mg.chance(1, 6);
+        let gname = |side: usize, k: usize| -> String { format!("public.kern{side}.g{k}{}", if rename { format!("_m{si}") } else { String::new() }) };
+        let mut k = Kerning::default();
+        for (side, assign) in [(1usize, &g1), (2usize, &g2)] {
+            for (gi, a) in assign.iter().enumerate() { if let Some(grp) = a { k.groups.entry(gname(side, *grp)).or_default().push(pool[gi].clone()); } }
+        }
+        for (a, b, v) in &base_pairs {
+            let drop = mg.chance(1, 5);
+            let zero = mg.chance(1, 8);
+            let jit = if si == 0 { mg.word(); 0.0 } else { mg.signed(30) as f64 };
+            let halfv = half && mg.chance(1, 3);
+            if drop { continue; }
+            let r1 = match a { KRef::Glyph(i) => pool[*i].clone(), KRef::Group(k1) => gname(1, *k1) };
+            let r2 = match b { KRef::Glyph(i) => pool[*i].clone(), KRef::Group(k2) => gname(2, *k2) };
+            if matches!(a, KRef::Group(_)) && !k.groups.contains_key(&r1) { continue; }
+            if matches!(b, KRef::Group(_)) && !k.groups.contains_key(&r2) { continue; }
+            let val = if zero || zero_everywhere.iter().any(|(x, y)| x == a && y == b) { 0.0 } else { v + jit + if halfv { 0.5 } else { 0.0 } };
+            k.pairs.insert((r1, r2), val);
+        }
+        f.sources[si].kerning = Some(k);
+    }
+}
+
+/// UFO kerning value lookup algorithm on one master's own kerning and groups
+pub fn ufo_kern_lookup(k: &Kerning, a: &str, b: &str) -> f64 {
+    let g1 = k.groups.iter().find(|(n, m)| n.starts_with("public.kern1.") && m.iter().any(|x| x == a)).map(|(n, _)| n.clone());
+    let g2 = k.groups.iter().find(|(n, m)| n.starts_with("public.kern2.") && m.iter().any(|x| x == b)).map(|(n, _)| n.clone());
+    let (a, b) = (Some(a.to_string()), Some(b.to_string()));
+    for (x, y) in [(&a, &b), (&a, &g2), (&g1, &b), (&g1, &g2)] {
+        if let (Some(x), Some(y)) = (x, y) { if let Some(v) = k.pairs.get(&(x.clone(), y.clone())) { return *v; } }
+    }
+    0.0
+}
+
+pub const ANCHOR_NAMES: &[&str] = &["top", "bottom", "ogonek"];
+
+fn gen_anchors(f: &mut SynthFont, g: &mut Gen) {
+    if !g.chance(9, 10) { return; }
+    f.categories_explicit = true;
+    let n_src = f.sources.len();
+    let propagate = g.chance(1, 4);
+    if propagate { f.lib_filters.push("propagateAnchors"); }
+    // make sure there is something to attach: the first two non-.notdef glyphs without a mark name may be turned into marks
+    let have_marks = f.glyphs.iter().filter(|x| is_mark_name(&x.name)).count();
+    let mut extra_marks = if have_marks == 0 { 1 + g.below(2) } else { g.below(2) };
+    for gl in f.glyphs.iter_mut() {
+        let mut gg = g.fork(24);
+        if gl.name == ".notdef" { continue; }
+        let is_lig = gl.name.contains('_') && !gl.name.starts_with('_');
+        let mut is_mark = is_mark_name(&gl.name);
+        if !is_mark && !is_lig && extra_marks > 0 && gg.chance(1, 3) { is_mark = true; extra_marks -= 1; }
+        gl.category = Some(if is_mark { "mark" } else if is_lig { "ligature" } else { "base" });
+        // propagation class: a composite of exactly one translated component gets no anchors of its own
+        let single_comp = gl.sources.get(&0).map(|s| s.contours.is_empty() && s.comps.len() == 1 && s.comps[0].xf[..4] == [1.0, 0.0, 0.0, 1.0]).unwrap_or(false);
+        if propagate && single_comp && !is_mark { continue; }
+        let mut list: Vec<(String, f64, f64)> = vec![];
+        for (ai, an) in ANCHOR_NAMES.iter().enumerate() {
+            let x = 100.0 + gg.below(500) as f64; let y = [700.0, -50.0, 0.0][ai] + gg.signed(60) as f64;
+            if is_mark {
+                let c = gg.chance(1, 2);
+                if c { list.push((format!("_{an}"), x, y - 400.0)); if gg.chance(1, 3) { list.push((an.to_string(), x + 10.0, y + 150.0)); } } else { gg.word(); }
+            } else if is_lig {
+                if gg.chance(1, 2) { list.push((format!("{an}_1"), x * 0.5, y)); list.push((format!("{an}_2"), x * 0.5 + 300.0, y)); }
+                gg.word();
+            } else {
+                if gg.chance(1, 2) { list.push((an.to_string(), x, y)); }
+                gg.word();
+            }
+        }
+        // a mark must have at least one mark anchor to be of any use; keep it possible that it has none
+        for (&si, src) in gl.sources.iter_mut() {
+            for (k, (n, x, y)) in list.iter().enumerate() {
+                let (jx, jy) = if si == 0 { (0.0, 0.0) } else { ((((k * 7 + si * 13) % 31) as f64) - 15.0, (((k * 11 + si * 5) % 23) as f64) - 11.0) };
+                src.anchors.push((n.clone(), x + jx, y + jy));
+            }
+        }
+        let _ = n_src;
+    }
+}
+
+fn gen_rules(f: &mut SynthFont, g: &mut Gen) {
+    let var: Vec<usize> = f.axes.iter().enumerate().filter(|(_, a)| !a.is_point()).map(|(i, _)| i).collect();
+    if var.is_empty() || !g.chance(9, 10) { return; }
+    let pool: Vec<String> = f.glyphs.iter().filter(|x| x.export && x.name != ".notdef").map(|x| x.name.clone()).collect();
+    if pool.len() < 2 { return; }
+    // inputs and outputs are disjoint so that no rule's output is another rule's input
+    let n_in = 1 + g.below((pool.len() / 2).min(3));
+    let (ins, outs) = pool.split_at(n_in);
+    f.rules_processing_last = g.chance(1, 4);
+    let n_rules = 1 + g.below(5);
+    let grid = [-1.0, -0.75, -0.5, -0.25, 0.0, 0.25, 0.5, 0.75, 1.0];
+    for ri in 0..n_rules {
+        let mut rg = g.fork(22);
+        let n_sets = 1 + rg.weighted(&[5, 2, 1]);
+        let mut sets = vec![];
+        for _ in 0..n_sets {
+            let mut cs = vec![];
+            for &ai in &var {
+                let a = &f.axes[ai];
+                let use_axis = rg.chance(2, 3);
+                let lo_i = rg.below(grid.len()); let span = rg.below(grid.len());
+                let open = rg.below(6);
+                if !use_axis && !(cs.is_empty() && ai == *var.last().unwrap()) { continue; }
+                let clampn = |v: f64| -> f64 { if v > 0.0 && a.d_above == 0.0 { 0.0 } else if v < 0.0 && a.d_below == 0.0 { 0.0 } else { v } };
+                let lo = clampn(grid[lo_i]); let hi = clampn(grid[(lo_i + span).min(grid.len() - 1)]);
+                let (lo, hi) = if lo <= hi { (lo, hi) } else { (hi, lo) };
+                let (mn, mx) = match open { 0 => (None, Some(hi)), 1 => (Some(lo), None), _ => (Some(lo), Some(hi)) };
+                cs.push((ai, mn.map(|v| a.norm_to_design(v)), mx.map(|v| a.norm_to_design(v))));
+            }
+            sets.push(cs);
+        }
+        let n_subs = 1 + rg.below(2.min(ins.len()));
+        let mut subs: Vec<(String, String)> = vec![];
+        for _ in 0..n_subs {
+            let a = ins[rg.below(ins.len())].clone(); let b = outs[rg.below(outs.len())].clone();
+            if !subs.iter().any(|(x, _)| *x == a) { subs.push((a, b)); }
+        }
+        f.rules.push(Rule { name: format!("rule{ri}"), condition_sets: sets, subs });
+    }
+}
+
+fn gen_naming(f: &mut SynthFont, g: &mut Gen) {
+    let fam = ["Synth", "Synth Sans", "Regular", "Bold"][g.weighted(&[6, 3, 1, 1])].to_string();
+    let styles = ["Regular", "Bold", "Italic", "Bold Italic", "Light", "Condensed Medium", "Synth", "Weight"];
+    let n_full = f.full_sources().count();
+    for (k, s) in f.sources.iter_mut().enumerate() {
+        let mut sg = g.fork(10);
+        if s.layer.is_some() { continue; }
+        let style = styles[if k == 0 { sg.weighted(&[6, 2, 1, 1, 2, 2, 1, 1]) } else { sg.below(styles.len()) }].to_string();
+        s.info.family = if sg.chance(1, 12) { None } else { Some(fam.clone()) };
+        s.info.style = if sg.chance(1, 12) { None } else { Some(style.clone()) };
+        match sg.below(4) {
+            0 => { s.info.style_map_family = Some(format!("{fam} {style}")); s.info.style_map_style = Some(["regular", "bold", "italic", "bold italic"][sg.below(4)]); }
+            1 => { s.info.style_map_family = Some(fam.clone()); sg.word(); }
+            _ => { sg.word(); }
+        }
+        if sg.chance(1, 4) { s.info.preferred_family = Some(format!("{fam} Pref")); }
+        if sg.chance(1, 4) { s.info.preferred_subfamily = Some(format!("{style} Pref")); }
+        if sg.chance(1, 4) { s.info.postscript_font_name = Some(format!("{}-{}", fam.replace(' ', ""), style.replace(' ', ""))); }
+        s.info.version_major = Some(1 + sg.below(3) as i64); s.info.version_minor = Some(sg.below(1000) as i64);
+        let _ = n_full;
+    }
+    // axis labels and instance names that coincide with other strings
+    let d_fam = f.sources[0].info.family.clone().unwrap_or_default();
+    let d_style = f.sources[0].info.style.clone().unwrap_or_default();
+    for a in f.axes.iter_mut() { let c = g.below(6); a.label = match c { 0 => Some(d_fam.clone()), 1 => Some(d_style.clone()), 2 => Some(format!("{} Axis", a.name)), 3 => Some("Weight".to_string()), _ => None }; if a.label.as_deref() == Some("") { a.label = None; } }
+    let n_inst = f.instances.len();
+    for (k, inst) in f.instances.iter_mut().enumerate() {
+        let mut ig = g.fork(6);
+        let pick = ig.below(8);
+        let style = match pick { 0 => d_style.clone(), 1 => d_fam.clone(), 2 => format!("{d_fam} {d_style}"), 3 => "Weight".to_string(), 4 => "Regular".to_string(), 5 => "Bold".to_string(), _ => format!("Style {k}") };
+        if !style.is_empty() { inst.style = Some(style.clone()); inst.name = Some(format!("{d_fam} {style}")); }
+        inst.family = if ig.chance(1, 4) { None } else { Some(d_fam.clone()) };
+        if ig.chance(1, 3) { inst.ps_name = Some(format!("{}-{}", d_fam.replace(' ', ""), style.replace(' ', ""))); } else { inst.ps_name = None; }
+        let _ = n_inst;
     }
 }
 
